@@ -182,3 +182,62 @@ Theorem C05_history_with_refused_writes : forall sz, (0 < sz)%nat -> forall hs f
   record sz j (hfinal sz hs f) = record sz j f /\ (j < count sz (hfinal sz hs f))%nat.
 Proof. exact history_with_refused. Qed.
 Print Assumptions C05_history_with_refused_writes.
+
+(* ---- sparse files: offsets at and beyond 2^31 / 2^32 bytes. The harness runs the operations on files of up to a
+   terabyte (sparse on disk) against `sp_*`: a file is its size and the stride-sized slots holding a non-zero byte.
+   Slot level, for EVERY slot index q (no bound): a write changes slot q only - the size becomes max(size, q*sz+|bs|),
+   slot q holds bs followed by what it held beyond |bs|, every other slot is what it was *)
+Theorem C05_sparse_frame : forall sz q bs s,
+  fst (sp_write sz q bs s) = Z.max (fst s) (q * Z.of_nat sz + lenZ bs) /\
+  sp_get q (snd (sp_write sz q bs s)) = trim0 (bs ++ skipn (length bs) (sp_get q (snd s))) /\
+  (forall q', q' <> q -> sp_get q' (snd (sp_write sz q bs s)) = sp_get q' (snd s)).
+Proof. exact sparse_frame. Qed.
+Print Assumptions C05_sparse_frame.
+
+(* ... and the sparse operations ARE the byte-list operations of the theorems above, for every file and every index:
+   if (size, slots) represents the byte list f (same length, same byte at every position), then count agrees, append
+   returns the same index, and append / substitute / delete-mark lead to a representation of the byte-list result (or
+   both refuse a negative index with the same code). So C05_append, C05_substitute_frame, C05_out_of_range_behaviour,
+   C05_history speak about the files of 2^32 bytes and more the harness uses. *)
+Theorem C05_sparse_is_the_byte_model : forall sz f s, (0 < sz)%nat -> represents sz f s ->
+  sp_count sz s = num_records sz f /\
+  (forall rec, (length rec <= sz)%nat ->
+     fst (sp_append sz rec s) = fst (append_record sz rec f) /\
+     represents sz (snd (append_record sz rec f)) (snd (sp_append sz rec s))) /\
+  (forall idx bs, (length bs <= sz)%nat ->
+     match substitute_record sz idx bs f, sp_substitute sz idx bs s with
+     | ROk f', ROk s' => 0 <= idx /\ represents sz f' s'
+     | RErr e, RErr e' => idx < 0 /\ e = e'
+     | _, _ => False
+     end) /\
+  (forall idx tag, (length tag <= sz)%nat ->
+     match delete_record sz idx tag f, sp_delete sz idx tag s with
+     | ROk f', ROk s' => 0 <= idx /\ represents sz f' s'
+     | RErr e, RErr e' => idx < 0 /\ e = e'
+     | _, _ => False
+     end).
+Proof. exact sparse_represents. Qed.
+Print Assumptions C05_sparse_is_the_byte_model.
+
+(* GetRecords and ModifyDirLite through the sparse description are the byte-list ones *)
+Theorem C05_sparse_read : forall f s start n desc, represents FH_SZ f s ->
+  sp_get_records start n desc s = get_records FH_SZ start n desc f.
+Proof. exact sp_get_records_represents. Qed.
+Print Assumptions C05_sparse_read.
+
+Theorem C05_sparse_modify : forall f s idx name a, represents FH_SZ f s ->
+  match modify_dir_lite idx name a f, sp_modify idx name a s with
+  | ROk f', ROk s' => represents FH_SZ f' s'
+  | RErr e, RErr e' => e = e'
+  | _, _ => False
+  end.
+Proof. exact sp_modify_represents. Qed.
+Print Assumptions C05_sparse_modify.
+
+(* the model's offset q * sz (in Z) is what int64(idx) * int64(size) computes: no int32 index and stride up to 65535
+   makes a 64-bit product wrap. (A product formed in 32 bits does, from offset 2^31 on - that is what the sparse
+   cases of the check are for.) *)
+Theorem C05_offset_fits_int64 : forall idx sz, - 2147483648 <= idx < 2147483648 -> 0 <= sz <= 65535 ->
+  - 9223372036854775808 <= idx * sz < 9223372036854775808.
+Proof. exact offset_fits_int64. Qed.
+Print Assumptions C05_offset_fits_int64.
